@@ -18,7 +18,9 @@ func checkC04(w *World, r *Result) {
 	mutAnRule(w, r, func(rel string) bool { return rel == "generator/sql" })
 	cacheDropRule(w, r, func(rel string) bool { return rel == "generator/sql" })
 	printfRule(w, r, "generator/sql")
-	statePkgRule(w, r, func(rel string) bool { return rel == "analysis" || rel == "analysis/sql" || rel == "generator/sql" || rel == "generator" })
+	statePkgRule(w, r, func(rel string) bool {
+		return rel == "analysis" || rel == "analysis/sql" || rel == "generator/sql" || rel == "generator"
+	})
 	aliasAppendRule(w, r, func(rel string) bool { return rel == "analysis" || rel == "generator/sql" || rel == "generator" })
 	mentionDeclare(w, r, "AGR-MD", "generator/sql", []string{"generator/sql.functionName", "generator/sql.typeID"}, "generator/sql.codeFor", map[string]bool{"generator/sql.functionName": true, "generator/sql.codeForBasicOrTime": true, "generator/sql.codeForEnum": true, "generator/sql.jsonValidations": true})
 	recursionShape(w, r, "REC-SHAPE", "generator/sql.typeID", "generator/sql.codeFor")
